@@ -7,5 +7,6 @@ cp /repo/*.go /repo/go.mod /repo/go.sum $D/; mkdir -p $SV/evidence; cp /verif/kn
 ( cd $D && git apply $P ) || { echo "APPLY FAILED"; rm -rf $D $SV; exit 2; }
 /verif/bin/sodcheck -prop all -repo $D -verif $SV > $SV/out.txt 2>&1
 grep -E "^  (violated|undecided)|BROKEN" $SV/out.txt | cut -c1-260
-echo "false alarms: $(grep -c '^VIOLATION' $SV/out.txt)"
+# a tree that does not load was not checked at all: say so on the summary line
+echo "false alarms: $(grep -c '^VIOLATION' $SV/out.txt)$(grep -q BROKEN $SV/out.txt && echo ' NOT-CHECKED (the patched tree does not load: port the patch)')"
 rm -rf $D $SV
